@@ -174,8 +174,7 @@ fn vr_flat(v: &read_fonts::tables::gpos::ValueRecord, out: &mut Vec<String>) {
 }
 
 fn recs(items: Vec<Vec<String>>) -> String {
-    // zero-size records are not rendered (their number cannot be recovered from the data: known finding)
-    format!("[{}]", items.iter().filter(|r| !r.is_empty()).map(|r| format!("({})", r.join("."))).collect::<Vec<_>>().join(","))
+    format!("[{}]", items.iter().map(|r| format!("({})", r.join("."))).collect::<Vec<_>>().join(","))
 }
 
 /// Fields whose traversal rendering is lossy (value records: null device offsets hidden; meta data offsets: `Unknown`),
@@ -254,6 +253,8 @@ pub fn walk_table_args<'a>(s: &mut Session, cx: &mut Ctx, t: &(dyn SomeTable<'a>
         return;
     }
     let ty = t.type_name().to_string();
+    // every table type reached inside a value that validated and compiled (= exercised by the value-level oracle)
+    s.count(&format!("walked:{ty}"));
     // (a format enum passes its arguments to every variant; a variant that takes none ignores them)
     let args: &[(String, String)] = if cx.covered.contains(&ty) && !cx.covered_args.contains_key(&ty) { &[] } else { args };
     let mut fields = vec![];
